@@ -651,6 +651,9 @@ func (em *emitter) emitImport(node *ast.Import, isTemplate bool) []*runtime.Func
 	if !blankImport {
 		// Make available the imported functions.
 		for name, fn := range funcs {
+			if !importedFor(node.For, name) {
+				continue
+			}
 			if importName != "" {
 				name = importName + "." + name
 			}
@@ -659,6 +662,9 @@ func (em *emitter) emitImport(node *ast.Import, isTemplate bool) []*runtime.Func
 
 		// Add the imported variables.
 		for name, v := range vars {
+			if !importedFor(node.For, name) {
+				continue
+			}
 			if importName != "" {
 				name = importName + "." + name
 			}
@@ -673,6 +679,20 @@ func (em *emitter) emitImport(node *ast.Import, isTemplate bool) []*runtime.Func
 	}
 
 	return inits
+}
+
+// importedFor reports whether name is accessible through an import with the
+// given "for" list; a nil list stands for every name.
+func importedFor(list []*ast.Identifier, name string) bool {
+	if list == nil {
+		return true
+	}
+	for _, ident := range list {
+		if ident.Name == name {
+			return true
+		}
+	}
+	return false
 }
 
 // emitSelect emits the 'select' statements. The emission is composed by 4 main
